@@ -36,60 +36,64 @@ def body(rel, func_re):
     return vlib.strip_go_comments(b or "")
 
 
+WIRE = ["SendBits", "ReceiveBits", "SendUint32", "SendLabel", "Flush", "ReceiveUint32", "ReceiveLabel",
+        "SendData", "ReceiveData"]
+SEND_VEC = ["p2p.Conn.SendUint32", "p2p.Conn.SendLabel", "p2p.Conn.Flush"]                  # Peer.SendBitvec
+RECV_VEC = ["p2p.Conn.ReceiveUint32", "p2p.Conn.ReceiveLabel"]                              # Peer.ReceiveBitvec
+SEND_VEC2 = ["p2p.Conn.SendUint32", "p2p.Conn.SendLabel", "p2p.Conn.SendLabel", "p2p.Conn.Flush"]   # SendBitvec2
+RECV_VEC2 = ["p2p.Conn.ReceiveUint32", "p2p.Conn.ReceiveLabel", "p2p.Conn.ReceiveLabel"]            # ReceiveBitvec2
+SEND_DATA = ["p2p.Conn.SendData", "p2p.Conn.Flush"]                                         # shareInput / sendOutput
+RECV_DATA = ["p2p.Conn.ReceiveData"]                                                        # receiveInput / receiveOutput
+SENDER_TERM = ["ot.IKNPSender.SendBits"] + SEND_VEC + RECV_VEC
+RECEIVER_TERM = ["ot.IKNPReceiver.ReceiveBits"] + SEND_VEC + RECV_VEC
+
+
 def facts(ctx):
-    """T2: shape of the Go code the model assumes."""
+    """T2.  SEMANTIC facts (obligations): call sequences extracted from the
+    syntax tree with same-package helpers inlined and receivers named by
+    declared type (gofacts callseq) - unchanged by renaming locals,
+    extracting / inlining helpers, loop-form changes.  ADVISORY facts: literal
+    source text whose meaning is already decided by a correspondence or an
+    oracle of this check; a drift only widens the search."""
+    # ---- semantic
+    ctx.fact("offline message grammar of Network.tripleBatch per peer: self.id < peer.id -> sender term (SendBits, send u, "
+             "receive v) then receiver term (ReceiveBits, send b, receive u); otherwise receiver term first",
+             ctx.callseq("gmw", "Network.tripleBatch", WIRE), SENDER_TERM + RECEIVER_TERM + RECEIVER_TERM + SENDER_TERM)
+    ctx.fact("online message grammar of Network.run: input sharing (send/receive or receive/send by id order), per level one "
+             "two-vector opening (send/receive or receive/send), output exchange",
+             ctx.callseq("gmw", "Network.run", WIRE),
+             SEND_DATA + RECV_DATA + RECV_DATA + SEND_DATA + SEND_VEC2 + RECV_VEC2 + RECV_VEC2 + SEND_VEC2 +
+             SEND_DATA + RECV_DATA + RECV_DATA + SEND_DATA)
+    ctx.fact("apps/garbled loadCircuit assigns levels on the loaded circuit",
+             ctx.callseq("apps/garbled", "loadCircuit", ["AssignLevels"]), ["circuit.Circuit.AssignLevels"])
+
+    # ---- advisory (text); sets over the whole file, so that moving a statement into a helper does not drift
+    tsrc = vlib.strip_go_comments(vlib.repo_file("gmw/triples.go"))
+    nsrc = vlib.strip_go_comments(vlib.repo_file("gmw/network.go"))
     tsl = body("gmw/triples.go", r"\(nw \*Network\) tripleSenderLoop\(")
-    sizes = [int(x) for x in re.findall(r"batchSize\s*:?=\s*(\d+)", tsl)]
-    ctx.fact("tripleSenderLoop batch sizes (all multiples of 64: the only counts ReceiveBits/SendBits are used with; "
-             "C06's packed-bit correlation holds exactly for n % 64 = 0)", sizes, [4096, 8192])
-    ctx.fact("every batch size is a multiple of 64", all(s % 64 == 0 for s in sizes) and bool(sizes), True)
-
-    tb = body("gmw/triples.go", r"\(nw \*Network\) tripleBatch\(")
-    arith = [norm(l) for l in tb.split("\n") if re.search(r"^\s*(c|u)\[\w\]\s*\^?=", l)]
-    ctx.fact("tripleBatch arithmetic (local term, u = a xor Delta, sender and receiver cross terms, both branch orders)", arith, [
-        "c[i] = a[i] & b[i]",
-        "u[w] = a[w] ^ ^uint64(0)", "c[w] ^= sBits[w] ^ (u[w] & v[w])", "c[w] ^= rBits[w]",
-        "c[w] ^= rBits[w]", "u[w] = a[w] ^ ^uint64(0)", "c[w] ^= sBits[w] ^ (u[w] & v[w])"])
-    calls = re.findall(r"peer\.(iknpS\.SendBits|iknpR\.ReceiveBits|SendBitvec|ReceiveBitvec)\(([^)]*)\)", tb)
-    ctx.fact("tripleBatch OT / message call order per `self.id < peer.id`", [[a, norm(b)] for a, b in calls], [
-        ["iknpS.SendBits", "size, sBits"], ["SendBitvec", "peer.offline, u"], ["ReceiveBitvec", "peer.offline, v"],
-        ["iknpR.ReceiveBits", "b, rBits, size"], ["SendBitvec", "peer.offline, b"], ["ReceiveBitvec", "peer.offline, u"],
-        ["iknpR.ReceiveBits", "b, rBits, size"], ["SendBitvec", "peer.offline, b"], ["ReceiveBitvec", "peer.offline, u"],
-        ["iknpS.SendBits", "size, sBits"], ["SendBitvec", "peer.offline, u"], ["ReceiveBitvec", "peer.offline, v"]])
-    loop = tb.split("for _, peer := range nw.peers", 1)
-    inloop = loop[1] if len(loop) == 2 else ""
-    ctx.fact("sBits/rBits/u/v are fresh zeroed slices per peer (SendBits/ReceiveBits only OR bits in)",
-             [len(re.findall(r"\b%s := make\(\[\]uint64, words\)" % v, inloop)) for v in ("sBits", "rBits", "u", "v")],
-             [1, 1, 1, 1])
-    ctx.fact("Delta bit used by tripleBatch", re.findall(r"delta := ([\w.()]+)", tb),
-             ["peer.iknpS.Delta.Bit(0)", "peer.iknpS.Delta.Bit(0)"])
-    ctx.fact("tripleBatch hands whole words to the pool", norm(re.search(r"nw\.Pool\.triples\.Append\((.*?)\}, size\)", tb, re.S).group(1))
-             if re.search(r"nw\.Pool\.triples\.Append\((.*?)\}, size\)", tb, re.S) else None,
-             "&Triples{ Words: words, A: a, B: b, C: c,")
-
-    abf = body("gmw/network.go", r"\(nw \*Network\) andBatchFlush\(")
-    arith = [norm(l) for l in abf.split("\n") if re.search(r"nw\.and[DEZ]\[w\]\s*\^?=", l)]
-    ctx.fact("andBatchFlush arithmetic", arith, [
-        "nw.andD[w] = andA ^ nw.triples.A[w]", "nw.andE[w] = andB ^ nw.triples.B[w]",
-        "nw.andZ[w] = nw.triples.C[w] ^", "nw.andZ[w] ^= (dOpen[w] & eOpen[w])"])
-    ctx.fact("andBatchFlush: z = c ^ d&b ^ e&a, d&e added by party 0 only",
-             norm(re.search(r"nw\.andZ\[w\] = (.*?)if self\.id == 0 \{", abf, re.S).group(1))
-             if re.search(r"nw\.andZ\[w\] = (.*?)if self\.id == 0 \{", abf, re.S) else None,
-             "nw.triples.C[w] ^ (dOpen[w] & nw.triples.B[w]) ^ (eOpen[w] & nw.triples.A[w])")
-    ctx.fact("andBatchFlush takes len(batch) triples and clears them", re.findall(r"nw\.(Pool\.Get\(len\(batch\), nw\.triples\)|triples\.Clear\(\))", abf),
-             ["Pool.Get(len(batch), nw.triples)", "triples.Clear()"])
-
-    run = body("gmw/network.go", r"\(nw \*Network\) run\(")
-    cases = [norm(m[0] + ": " + m[1]) for m in
-             re.findall(r"case circuit\.(XNOR|INV):(.*?)(?=case circuit|default:)", run, re.S)]
-    ctx.fact("run: constant of XNOR / INV folded into party 0", cases,
-             ["XNOR: bit = a ^ b if self.id == 0 { bit ^= 1 }", "INV: if self.id == 0 { bit = a ^ 1 } else { bit = a }"])
-    ctx.fact("run: levels, rest before ands", re.findall(r"(range rest\[i\]|nw\.andBatchFlush\(ands\[i\]\))", run),
-             ["range rest[i]", "nw.andBatchFlush(ands[i])"])
-    main = vlib.repo_file("apps/garbled/main.go")
-    ctx.fact("apps/garbled assigns levels for the selected target after loading the circuit",
-             bool(re.search(r"circ\.AssignLevels\(params\.Target\)", main)) and
-             bool(re.search(r"params\.Target = utils\.TargetGMW", main)), True)
+    ctx.advise("tripleSenderLoop batch size literals (decided at run time by `pools dealt whole words` and the triple oracle)",
+               [int(x) for x in re.findall(r"batchSize\s*:?=\s*(\d+)", tsl)], [4096, 8192])
+    ctx.advise("triples.go cross-term arithmetic statements (decided by the tb correspondence)",
+               sorted(set(norm(l) for l in tsrc.split("\n") if re.search(r"^\s*(c|u)\[\w\]\s*\^?=", l))),
+               sorted(["c[i] = a[i] & b[i]", "u[w] = a[w] ^ ^uint64(0)", "c[w] ^= sBits[w] ^ (u[w] & v[w])", "c[w] ^= rBits[w]"]))
+    ctx.advise("Delta bit index used for the bit-COT (decided by the tb correspondence)",
+               sorted(set(re.findall(r"iknpS\.Delta\.Bit\((\w+)\)", tsrc))), ["0"])
+    ctx.advise("sBits/rBits/u/v allocated zeroed in tripleBatch (SendBits/ReceiveBits only OR bits in; decided by the tb "
+               "correspondence and the triple oracle with >= 3 parties)",
+               sorted(set(re.findall(r"\b(sBits|rBits|u|v) := make\(\[\]uint64, words\)", tsrc))), ["rBits", "sBits", "u", "v"])
+    ctx.advise("andBatchFlush arithmetic statements (decided by the sess correspondence on every wire share)",
+               sorted(set(norm(l) for l in nsrc.split("\n") if re.search(r"nw\.and[DEZ]\[w\]\s*\^?=", l))),
+               sorted(["nw.andD[w] = andA ^ nw.triples.A[w]", "nw.andE[w] = andB ^ nw.triples.B[w]",
+                       "nw.andZ[w] = nw.triples.C[w] ^", "nw.andZ[w] ^= (dOpen[w] & eOpen[w])"]))
+    ctx.advise("andBatchFlush takes len(batch) triples and clears them (decided by the lockstep oracle: consumed words = need)",
+               re.findall(r"nw\.(Pool\.Get\(len\(batch\), nw\.triples\)|triples\.Clear\(\))", nsrc),
+               ["Pool.Get(len(batch), nw.triples)", "triples.Clear()"])
+    ctx.advise("run: constant of XNOR / INV folded into party 0 (decided by the sess correspondence; synthetic circuits use both)",
+               [norm(m[0] + ": " + m[1]) for m in
+                re.findall(r"case circuit\.(XNOR|INV):(.*?)(?=case circuit|default:)", nsrc, re.S)],
+               ["XNOR: bit = a ^ b if self.id == 0 { bit ^= 1 }", "INV: if self.id == 0 { bit = a ^ 1 } else { bit = a }"])
+    ctx.advise("apps/garbled selects the GMW target for -gmw", bool(re.search(
+        r"params\.Target = utils\.TargetGMW", vlib.repo_file("apps/garbled/main.go"))), True)
 
 
 def install_hook(ctx):
@@ -111,8 +115,8 @@ def run(ctx):
     ctx.build_drv()
     try:
         facts(ctx)
-    except Exception as e:  # a fact whose anchor text is gone
-        ctx.oblige("structural facts extractable from gmw/*.go", False, repr(e))
+    except Exception as e:  # a source file of the advisory text facts moved
+        ctx.advise("advisory text facts extractable from gmw/*.go", repr(e), "ok")
     install_hook(ctx)
     quick = ctx.tier == "quick"
     if ctx.build_hx():
@@ -135,9 +139,13 @@ def run(ctx):
         ctx.oblige("AND batches whose size is not a multiple of 64, multi-word batches and circuits with >= 8 AND levels ran",
                    c.get("sess_and_batches_not_multiple_of_64", 0) > 0 and c.get("sess_and_batches_multiword", 0) > 0 and
                    c.get("sess_sessions_ge8_and_levels", 0) > 0, str(c))
+        ctx.oblige("every pool snapshot held exactly the triples asked for: all dealt batches were whole 64-bit words (the "
+                   "counts SendBits/ReceiveBits are used with are multiples of 64)",
+                   c.get("sess_pools_dealt_whole_words", 0) > 0 and c.get("sess_pools_dealt_partial_words", 0) == 0,
+                   str({k: v for k, v in c.items() if "pools_dealt" in k}))
         ctx.oblige("a Get that had to wait for arriving batches ran (pool ops)", c.get("pool_pool_get_blocked", 0) > 0, str(c))
         ctx.coverage["programs"] = c.get("sess_sessions", 0)
-        if ctx.broken and not ctx.fails:
+        if ctx.widen:
             # widened search for a concrete failing input
             for s in range(ctx.seed + 7000, ctx.seed + 7003):
                 for mode, n in (("tb", 60), ("sess", 60)):
